@@ -65,10 +65,56 @@ def gen_interface(rnd, name, pool):
     return interface.DBusInterface(name, *members, noRegister=True), decl
 
 
+def mutate_interface(rnd, iface, decl, pool):
+    """change a live interface definition the way its API allows (members re-declared with other types, removed, added) and
+    keep the expected declaration in step"""
+    from txdbus import interface
+    done = []
+    for _ in range(rnd.choice([1, 2, 3])):
+        kind = rnd.choice(['method', 'signal', 'property'])
+        table = decl[kind + 's' if kind != 'property' else 'properties']
+        names = sorted(table)
+        op = rnd.choice(['redeclare', 'redeclare', 'add', 'delete'])
+        if op == 'delete' and names:
+            n = rnd.choice(names)
+            {'method': iface.delMethod, 'signal': iface.delSignal, 'property': iface.delProperty}[kind](n)
+            del table[n]
+        else:
+            n = rnd.choice(names) if (op == 'redeclare' and names) else '%s%d' % ({'method': 'M', 'signal': 'S', 'property': 'P'}[kind], 7 + len(names))
+            if kind == 'method':
+                si, so = gen_sig(rnd, pool), gen_sig(rnd, pool)
+                iface.addMethod(interface.Method(n, arguments=si, returns=so))
+                table[n] = (si, so)
+            elif kind == 'signal':
+                sg = gen_sig(rnd, pool)
+                iface.addSignal(interface.Signal(n, sg))
+                table[n] = sg
+            else:
+                sg = rnd.choice(pool)
+                r, w = rnd.choice([(True, False), (True, True), (False, True)])
+                iface.addProperty(interface.Property(n, sg, readable=r, writeable=w))
+                table[n] = (sg, 'write' if (w and not r) else 'readwrite' if w else 'read', 'true')
+        done.append((op, kind, n))
+    return done
+
+
 def roundtrip_case(rnd, pool, n_if):
-    from txdbus import introspection, interface, objects
     names = ['org.verif.X%d' % k for k in range(n_if)]
     built = [gen_interface(rnd, n, pool) for n in names]
+    f = roundtrip_check(built, names)
+    if f:
+        return f
+    # the definitions change after they have been introspected once: the next document describes them as they are now
+    for round_ in range(2):
+        hist = [(name, mutate_interface(rnd, iface, decl, pool)) for (iface, decl), name in zip(built, names) if rnd.random() < 0.8]
+        f = roundtrip_check(built, names)
+        if f:
+            return 'after the changes %r: %s' % (hist, f)
+    return None
+
+
+def roundtrip_check(built, names):
+    from txdbus import introspection, interface, objects
     xml = introspection.generateIntrospectionXML('/obj', {'/obj': FakeObject([b[0] for b in built])})
     if xml is None:
         return 'no XML generated for an exported object'
